@@ -58,10 +58,19 @@ def _jaqal_import_module_relative(mod_name, import_path):
     if not import_path:
         raise ImportError("Unable to perform relative import without import_path")
 
-    spec = _jaqal_find_spec_relative(top_level, import_path)
-    module = importlib.util.module_from_spec(spec)
+    try:
+        spec = _jaqal_find_spec_relative(top_level, import_path)
+        module = importlib.util.module_from_spec(spec)
+    except OSError as exc:
+        # e.g. the import path does not exist or is not a directory
+        raise ImportError(f"Unable to find module {top_level}: {exc}") from exc
     sys.modules[top_level] = module
-    spec.loader.exec_module(module)
+    try:
+        spec.loader.exec_module(module)
+    except OSError as exc:
+        # e.g. a plain directory of that name, which is not a package
+        del sys.modules[top_level]
+        raise ImportError(f"Unable to load module {top_level}: {exc}") from exc
 
     if module_heirarchy:
         # The submodule is found through the freshly loaded top-level package.
